@@ -41,6 +41,7 @@ theorem insert_sim {s : LS} {t : HT} (r : Rep s t) {fuel : Nat} (hfuel : (nodes 
   rintro ⟨s1, j⟩ ⟨t1, j'⟩ ⟨st, hj⟩ _
   simp only at st hj
   subst hj
+  unfold insertTail
   have hfr1 : ¬ Owns t1 e := fun h => hfresh (st.own e h)
   have r1 : Rep (s1.setKey e k) t1 := st.rep.setKey k hfr1
   unfold Hash.pushHead
@@ -245,16 +246,6 @@ theorem eraseWalk_link (s : LS) (e : Nat) :
         · rcases sp.where_ with h | ⟨z, hz, h⟩
           · exact Or.inr ⟨x.id, by simp, h⟩
           · exact Or.inr ⟨z, by simp [hz], h⟩
-
-/-- the part of `cstl_hash_erase` after the keyed lookup -/
-def eraseTail (fuel : Nat) (s1 : LS) (j e : Nat) : LR LS :=
-  chk s1.t j >>= fun _ =>
-  bucketForeach eraseVisit fuel s1 { n := .head j, e := e } (s1.t.head j) >>= fun w =>
-  if w.2.2 ≠ 0 then
-    if w.1.rdLoc w.2.1.n = 0 then stop .nullDeref
-    else pure ((w.1.wrLoc w.2.1.n (w.1.nxt (w.1.rdLoc w.2.1.n))).setSize
-                ((w.1.wrLoc w.2.1.n (w.1.nxt (w.1.rdLoc w.2.1.n))).t.size - 1))
-  else pure w.1
 
 theorem erase_unfold (fuel : Nat) (s : LS) (e : Nat) :
     erase hf fuel s e = (keyed hf fuel s (s.keyOf e) >>= fun r => eraseTail fuel r.1 r.2 e) := rfl
